@@ -260,8 +260,9 @@ def _plane_to_convex_hull_points(plane_point, plane_normal, points):
     max_idx = np.argmax(ts)
 
     if ts[min_idx] * ts[max_idx] < 0:  # on opposite sides, intersection
-        return _line_segment_to_plane(
-            points[min_idx], points[max_idx], plane_point, plane_normal, 1e-6)
+        t = ts[min_idx] / (ts[min_idx] - ts[max_idx])
+        intersection = points[min_idx] + t * (points[max_idx] - points[min_idx])
+        return 0.0, intersection, intersection
 
     closest_idx = np.argmin(np.abs(ts))
     closest_point = points[closest_idx]
